@@ -26,8 +26,12 @@ theorem C06_unpack_line :
     ∀ (env : Env) (ts : Int) (seen : Seen) (a a' : LogQL.Acc),
       (Stage.apply env ts Stage.unpack seen a).fst = some a' →
         a'.line = a.line ∨
-          ∃ k v fs e,
-            env.jsonObject false a.line = (fs, e) ∧ (k, Json.JVal.str v) ∈ fs ∧ k = Bytes.ofString "_entry" ∧ a'.line = v :=
+          ∃ (k : Bytes),
+            ∃ (v : List Nat),
+              ∃ (fs : List (Bytes × Json.JVal)),
+                ∃ (e : Bool),
+                  env.jsonObject false a.line = (fs, e) ∧
+                    (k, Json.JVal.str v) ∈ fs ∧ k = Bytes.ofString "_entry" ∧ a'.line = v :=
   @unpack_line
 
 /-- **C06 (json exposes every field)**: old labels overridden by every non-null field under its sanitised key, no error flag -/
@@ -40,9 +44,9 @@ theorem C06_json_all_fields :
               labels :=
                 setAll a.labels
                   (List.filterMap
-                    (fun x =>
+                    (fun (x : Bytes × Json.JVal) =>
                       match x with
-                      | (k, v) => Option.map (fun t => (KeyToLabel.run k, t)) (jvalText v))
+                      | (k, v) => Option.map (fun (t : Bytes) => (KeyToLabel.run k, t)) (jvalText v))
                     fs) } :=
   @json_all_fields
 
@@ -72,20 +76,22 @@ theorem C06_json_unparsable_flags :
     ∀ (env : Env) (ts : Int) (seen : Seen) (a : LogQL.Acc) (labels : List Bytes)
       (exprs : List (Bytes × JsonExpr.Path)) (fs : List (Bytes × Json.JVal)),
       (exprs ≠ [] →
-          (env.jsonExpr (dedupLast (exprs ++ List.map (fun l => (l, [JsonExpr.Sel.key l])) labels)) a.line).snd = true →
-            ∃ a',
+          (env.jsonExpr (dedupLast (exprs ++ List.map (fun (l : List Nat) => (l, [JsonExpr.Sel.key l])) labels))
+                  a.line).snd =
+              true →
+            ∃ (a' : LogQL.Acc),
               (Stage.apply env ts (Stage.json labels exprs) seen a).fst = some a' ∧
                 a'.line = a.line ∧ a'.labels.has errorLabel = true) ∧
         (exprs = [] →
             labels ≠ [] →
               env.jsonObject false a.line = (fs, true) →
-                ∃ a',
+                ∃ (a' : LogQL.Acc),
                   (Stage.apply env ts (Stage.json labels exprs) seen a).fst = some a' ∧
                     a'.line = a.line ∧ a'.labels.has errorLabel = true) ∧
           (exprs = [] →
             labels = [] →
               env.jsonObject false a.line = (fs, true) →
-                ∃ a',
+                ∃ (a' : LogQL.Acc),
                   (Stage.apply env ts (Stage.json labels exprs) seen a).fst = some a' ∧
                     a'.line = a.line ∧ a'.labels.has errorLabel = true) :=
   @json_unparsable_flags
@@ -102,7 +108,7 @@ theorem C06_logfmt_unparsable_flags :
     ∀ (env : Env) (ts : Int) (seen : Seen) (a : LogQL.Acc) (labels : List Bytes)
       (exprs kvs : List (Bytes × Bytes)),
       env.logfmt a.line = (kvs, true) →
-        ∃ a',
+        ∃ (a' : LogQL.Acc),
           (Stage.apply env ts (Stage.logfmt labels exprs) seen a).fst = some a' ∧
             a'.line = a.line ∧ a'.labels.has errorLabel = true :=
   @logfmt_unparsable_flags
@@ -111,7 +117,8 @@ theorem C06_logfmt_unparsable_flags :
 theorem C06_unpack_unparsable_flags :
     ∀ (env : Env) (ts : Int) (seen : Seen) (a : LogQL.Acc) (fs : List (Bytes × Json.JVal)),
       env.jsonObject false a.line = (fs, true) →
-        ∃ a', (Stage.apply env ts Stage.unpack seen a).fst = some a' ∧ a'.line = a.line ∧ a'.labels.has errorLabel = true :=
+        ∃ (a' : LogQL.Acc),
+          (Stage.apply env ts Stage.unpack seen a).fst = some a' ∧ a'.line = a.line ∧ a'.labels.has errorLabel = true :=
   @unpack_unparsable_flags
 
 /-- the first error of a record is the one reported -/
